@@ -239,8 +239,19 @@ func (s *Server) BuildObject(spec Obj) (string, Obj) {
 			}
 			lam["labels"] = lm
 		}
+		if laa := StrMapOf(spec["laAnn"]); len(laa) > 0 {
+			am := Obj{}
+			for k, v := range laa {
+				am[k] = v
+			}
+			lam["annotations"] = am
+		}
 		lao["metadata"] = lam
-		lao["spec"] = normTree(la)
+		if AsStr(spec["laTop"]) != "" {
+			lao[AsStr(spec["laTop"])] = normTree(la)
+		} else {
+			lao["spec"] = normTree(la)
+		}
 		b, _ := json.Marshal(lao)
 		ann[LastAppliedAnnotation] = string(b)
 	}
@@ -342,15 +353,15 @@ func (s *Server) RunHookProg(prog Obj, req Obj) HookReply {
 	case "ordinal":
 		// StatefulSet-like: child i is desired only once child i-1 has been observed
 		obs := observedNames(req, childField)
-		n := AsInt(prog["n"])
-		for i := 0; i < n; i++ {
-			name := "o" + strconv.Itoa(i)
-			prev := "o" + strconv.Itoa(i-1)
-			if i == 0 || obs[prev] || obs["ns1/"+prev] {
-				kids = append(kids, s.childFromSpec(Obj{"res": prog["res"], "name": name, "labels": prog["labels"], "spec": Obj{"i": strconv.Itoa(i)}}))
-			} else {
-				break
+		cl := AsList(prog["children"])
+		for i, c := range cl {
+			if i > 0 {
+				prev := AsStr(AsMap(cl[i-1])["name"])
+				if !(obs[prev] || obs["ns1/"+prev]) {
+					break
+				}
 			}
+			kids = append(kids, s.childFromSpec(AsMap(c)))
 		}
 	case "drain":
 		// finalize programme: want nothing; finalized once nothing is observed
